@@ -14,6 +14,10 @@ CHECKS = {
         technique="Coq proof (induction over the cursor loop, closed-form interval spec) + differential run of the extracted model against Pieces::from_torrent",
         text="Theorems C06_layout_multi / C06_layout_single / C06_hash_count and the partition theorems hold for all file-length vectors and piece lengths with u64 checks explicit; the model is tied to pieces.rs by an exhaustive small-vector and u64-boundary differential run with an independent interval oracle.",
         ref="DESIGN.md section 5 C06"),
+    "C08": dict(
+        technique="Coq proof (soundness + completeness of the fuelled decoder w.r.t. the canonical encoder, spans specified by a function) + exhaustive/generated differential run against Parser::decode",
+        text="C08_decode_spec: decode x = Ok t <-> x is the encoding of exactly one canonical value v and t = annot 0 v (every node's start/continuation computed from the encodings); proved for all byte strings. The model is tied to parser.rs by comparing whole trees incl. every span on all strings over a 10-symbol bencode alphabet up to length 5 (6 thorough) plus grammar-generated, mutated and numeric-adversary inputs; an independent reference decoder names the violated clause.",
+        ref="DESIGN.md section 5 C08"),
 }
 
 PENDING = {}
